@@ -15,7 +15,9 @@ From Verif Require Import Containers.BitVecModel.
 From Verif Require Import Jit.JitSpec Jit.JitSpecProofs Jit.JitIter.
 From Verif Require Import Containers.RangeIterModel.
 From Verif Require Import Sections.SectionModel Sections.SectionProofs Sections.CopyProofs.
-From Verif Require Import Jit.JitTablesCheck Jit.JitQuery Jit.JitReuse.
+From Verif Require Import Jit.JitTablesCheck Jit.JitQuery Jit.JitReuse Jit.JitComplete Jit.JitRefine.
+From Verif Require Jit.JitIterB.
+From Verif Require Import Jit.JitLpModel Jit.JitLpProofs Jit.JitNorm.
 From VerifGen Require JitTables.
 From Verif Require Import Jit.JitModel.
 From Verif Require Import Jit.JitStats Jit.JitVmModel Jit.JitVmProofs Jit.JitTree Jit.JitRuntimeModel Jit.JitRuntimeProofs.
@@ -563,3 +565,273 @@ Print Assumptions C09_vm_histories_sound.
 
 Example C09_vm_histories_hyps_sat : reach_vm cfg_f (fst (alloc_vm cfg_f (init_state cfg_f) 100 false)).
 Proof. apply rv_fail. apply rv_init. Qed.
+
+(* ================================================================ round 6 *)
+
+(* ---------------------------------------------------------------- completeness of alloc: the answer class of EVERY size (any Z, any
+   state, any variant): rounded = align_up(size, granularity) mod 2^64; 0 -> InvalidArgument, state unchanged; beyond
+   2^31 - 1 -> TooLarge, state unchanged; otherwise Ok with exactly the rounded size (virtual memory permitting: see
+   C09_vm_failure for the failing oracle) *)
+Theorem C09_alloc_classification : forall c st size,
+  let sz := rounded c size in
+  (sz = 0 -> alloc c st size = (st, RAlloc InvalidArgument 0 0 0)) /\
+  (2147483647 <= sz - 1 -> sz <> 0 -> alloc c st size = (st, RAlloc TooLarge 0 0 0)) /\
+  (1 <= sz <= 2147483647 -> exists st' id off, alloc c st size = (st', RAlloc Ok id off sz)).
+Proof. exact alloc_classification. Qed.
+Print Assumptions C09_alloc_classification.
+
+Example C09_alloc_classification_instances :
+  rounded cfg_f 0 = 0 /\ rounded cfg_f 100 = 128 /\ rounded cfg_f 2147483648 = 2147483648 /\ rounded cfg_f (JitModel.two64 - 1) = 0.
+Proof. vm_compute. repeat split; reflexivity. Qed.
+
+(* ---------------------------------------------------------------- frame conditions on whole block records (any state, any variant):
+   release and shrink leave every block with another id literally untouched (bit vectors, counters, search cache, flags);
+   alloc leaves used/stop bits, area_used, the empty flag, live spans and geometry of every block it did not allocate from
+   untouched (only their search cache may have been refreshed by the block loop) *)
+Theorem C09_release_frame_blocks : forall c st id off b',
+  In b' (blocks st) -> b_id b' <> id -> In b' (blocks (fst (release c st id off))).
+Proof. exact release_frame_blocks. Qed.
+Print Assumptions C09_release_frame_blocks.
+
+Theorem C09_shrink_frame_blocks : forall c st id off ns b',
+  In b' (blocks st) -> b_id b' <> id -> In b' (blocks (fst (shrink c st id off ns))).
+Proof. exact shrink_frame_blocks. Qed.
+Print Assumptions C09_shrink_frame_blocks.
+
+Theorem C09_alloc_frame_blocks : forall c st size st' id off len,
+  alloc c st size = (st', RAlloc Ok id off len) ->
+  forall b, In b (blocks st) -> b_id b <> id -> exists b', In b' (blocks st') /\ same_content b b'.
+Proof. exact alloc_frame_blocks. Qed.
+Print Assumptions C09_alloc_frame_blocks.
+
+Example C09_frame_blocks_instance :
+  (* two blocks; releasing a span of block 1 leaves block 0 in the list unchanged *)
+  let st := run cfg_f (init_state cfg_f) [OAlloc 100; OAlloc 200000] in
+  length (blocks st) = 2%nat /\
+  (forall b, In b (blocks st) -> b_id b = 0 -> In b (blocks (fst (release cfg_f st 1 64)))).
+Proof. cbn zeta. split; [vm_compute; reflexivity|]. intros b Hb Hid. apply release_frame_blocks; [assumption|]. rewrite Hid. discriminate. Qed.
+
+(* ---------------------------------------------------------------- BitVectorRangeIterator<T, B> for BOTH values of B (B = 0: alloc's scan,
+   B = 1: JitAllocatorImpl_wipeOutBlock), every word size, every vector, every window [start, E) with no B-bit between E and
+   the end of its word, every hint: the list of ALL ranges the iterator returns (C18's `ranges`) consists of ranges of B-bits
+   inside the window and covers every B-bit of the window — nothing is skipped, nothing else is reported *)
+Theorem C09_iterator_ranges_cover : forall W, 0 < W -> forall ws, words_ok W ws -> forall E, 0 <= E <= W * zlen ws ->
+  forall bb : bool, (forall j, E <= j < JitIterB.Eup W E -> JitIterB.F W ws bb j = false) -> W * zlen ws < 2 ^ 64 ->
+  forall start hint, 0 <= start <= E ->
+  (forall s e, In (s, e) (ranges W bb ws start E hint) ->
+     start <= s /\ s < e /\ e <= E /\ forall j, s <= j < e -> JitIterB.F W ws bb j = true) /\
+  (forall j, start <= j < E -> JitIterB.F W ws bb j = true -> exists s e, In (s, e) (ranges W bb ws start E hint) /\ s <= j < e).
+Proof. exact JitIterB.ranges_cover. Qed.
+Print Assumptions C09_iterator_ranges_cover.
+
+(* the wipe of a soft reset (B = 1 over the whole used bit vector of the kept block): the ranges it fills are exactly the set bits *)
+Theorem C09_wipe_ranges_exact : forall W ws u hint,
+  0 < W -> words_ok W ws -> W * zlen ws < 2 ^ 64 -> repr W ws u ->
+  let rs := ranges W true ws 0 (W * zlen ws) hint in
+  (forall s e, In (s, e) rs -> 0 <= s /\ s < e /\ e <= W * zlen ws /\ forall j, s <= j < e -> Z.testbit u j = true) /\
+  (forall j, 0 <= j < W * zlen ws -> Z.testbit u j = true -> exists s e, In (s, e) rs /\ s <= j < e).
+Proof. exact JitIterB.wipe_ranges_exact. Qed.
+Print Assumptions C09_wipe_ranges_exact.
+
+(* ... hence, in every reachable state: every granule of every live span (and the padding granule) of the block is overwritten by
+   the wipe, and every wiped granule is padding or belongs to a live span (this is the statement the pinned tree violated:
+   DESIGN round-1 defect reset-wipes-unused-ranges, fixed by 062060b) *)
+Theorem C09_wipe_covers_live : forall c st b W ws hint,
+  cfg_ok c -> reach c st -> In b (blocks st) ->
+  0 < W -> words_ok W ws -> W * zlen ws < 2 ^ 64 -> repr W ws (b_used b) -> b_area b = W * zlen ws ->
+  let rs := ranges W true ws 0 (W * zlen ws) hint in
+  (forall sp j, In sp (b_live b) -> in_span sp j -> exists s e, In (s, e) rs /\ s <= j < e) /\
+  (b_pad b = 1 -> exists s e, In (s, e) rs /\ s <= 0 < e) /\
+  (forall s e j, In (s, e) rs -> s <= j < e -> (j = 0 /\ b_pad b = 1) \/ covered (b_live b) j).
+Proof. exact JitIterB.wipe_covers_live. Qed.
+Print Assumptions C09_wipe_covers_live.
+
+Example C09_wipe_instance :
+  (* one 8-bit word 0110_0111b: the B = 1 iterator returns [0,3) and [5,7); the B = 0 iterator [3,5) and [7,8) *)
+  ranges 8 true [103] 0 8 1000 = [(0, 3); (5, 7)] /\ ranges 8 false [103] 0 8 1000 = [(3, 5); (7, 8)].
+Proof. vm_compute. split; reflexivity. Qed.
+
+(* ---------------------------------------------------------------- large pages as an oracle step of JitAllocator_new_block
+   (kUseLargePages / kAlignBlockSizeToLargePage; lp = large page size of the host, ok = the large-page mapping succeeded):
+   only the byte size of a new block changes; the allocator invariant is preserved for every page size and outcome; without
+   large pages alloc_lp IS alloc; with them the block is a whole number of large pages and not smaller *)
+Theorem C09_large_pages_invariant : forall c st size lp fl ok, cfg_ok c -> ginv c st -> ginv c (fst (alloc_lp c st size lp fl ok)).
+Proof. exact ginv_alloc_lp. Qed.
+Print Assumptions C09_large_pages_invariant.
+
+Theorem C09_large_pages_none : forall c st size lp fl ok,
+  lp = 0 \/ ok = false -> alloc_lp c st size lp fl ok = alloc c st size.
+Proof. exact alloc_lp_none. Qed.
+Print Assumptions C09_large_pages_none.
+
+Theorem C09_large_pages_block_size : forall lp fl bytes, 0 < lp -> lp <= bytes \/ fl = true ->
+  lp_bytes lp fl true bytes = JitModel.align_up bytes lp /\ bytes <= JitModel.align_up bytes lp /\ (JitModel.align_up bytes lp) mod lp = 0.
+Proof. exact lp_bytes_on. Qed.
+Print Assumptions C09_large_pages_block_size.
+
+(* the allocator invariant over histories with every oracle: large pages of any size and outcome, failing VM requests *)
+Theorem C09_invariant_all_oracles : forall c st, cfg_ok c -> reach_x c st -> ginv c st.
+Proof. exact reach_x_ginv. Qed.
+Print Assumptions C09_invariant_all_oracles.
+
+Example C09_large_pages_instance :
+  map b_bytes (blocks (fst (alloc_lp cfg_lp (init_state cfg_lp) 100 2097152 true true))) = [2097152] /\
+  map b_bytes (blocks (fst (alloc_lp cfg_lp (init_state cfg_lp) 100 2097152 false true))) = [131072] /\
+  map b_bytes (blocks (fst (alloc_lp cfg_lp (init_state cfg_lp) 3000000 2097152 false true))) = [4194304].
+Proof. exact alloc_lp_example. Qed.
+
+(* ---------------------------------------------------------------- translator, round 6: the answer class of the REAL JitAllocator::alloc for
+   sizes 0, around 2^31 and around the 2^64 wrap-around (regenerated on every run into coq/gen/JitTables.v) is the class
+   C09_alloc_classification computes *)
+Theorem C09_alloc_classification_matches_source : forallb check_allocerr JitTables.allocerr_table = true.
+Proof. exact JitTables.allocerr_ok. Qed.
+Print Assumptions C09_alloc_classification_matches_source.
+
+(* ---------------------------------------------------------------- the hypotheses cfg_ok / cfg_ok_bytes are discharged for every
+   configuration JitAllocator can have: ANY CreateParams, normalised as JitAllocator_new_impl does (norm_gran / norm_bsize /
+   norm_pools, tied to the source by C09_tables_match_source), on a host whose page granularity is a positive multiple of 1024 *)
+Theorem C09_every_configuration_ok : forall g bs multi page_gran pad imm,
+  0 < page_gran -> (1024 | page_gran) ->
+  cfg_ok_bytes (mkConfig (norm_gran g) (norm_pools multi) (norm_bsize page_gran bs) pad imm fixed).
+Proof. exact norm_cfg_ok. Qed.
+Print Assumptions C09_every_configuration_ok.
+
+(* ... so, e.g., byte-level containment holds without any hypothesis on the parameters (page granularity 64 KiB as on this host) *)
+Theorem C09_span_bytes_inside_any_params : forall g bs multi pad imm st,
+  let c := mkConfig (norm_gran g) (norm_pools multi) (norm_bsize 65536 bs) pad imm fixed in
+  reach c st ->
+  forall b s n, In b (blocks st) -> In (s, n) (b_live b) ->
+  let gp := pool_gran c (b_pool b) in
+  0 < gp /\ b_pad b * gp <= s * gp /\ s * gp + n * gp <= b_bytes b /\ 1 * gp <= n * gp.
+Proof. exact span_bytes_inside_any_params. Qed.
+Print Assumptions C09_span_bytes_inside_any_params.
+
+(* ---------------------------------------------------------------- C09_alloc_result without its size hypotheses: for a granularity that
+   divides 2^64 (every power of two, i.e. every configuration JitAllocator can have) and EVERY size — negative, huge, wrapping
+   around at 2^64 — a successful alloc returns exactly `rounded c size`, which lies in [1, 2^31 - 1], and the span is live,
+   aligned, and a new block is created only when no block of the pool has room *)
+Theorem C09_alloc_result_any_size : forall c st size st' id off len,
+  cfg_ok c -> (c_gran c | JitModel.two64) -> reach c st ->
+  alloc c st size = (st', RAlloc Ok id off len) ->
+  len = rounded c size /\ 1 <= len <= 2147483647 /\ len mod c_gran c = 0 /\
+  exists b, In b (blocks st') /\ b_id b = id /\ b_pool b = size_to_pool c len /\
+            off mod pool_gran c (b_pool b) = 0 /\ len mod pool_gran c (b_pool b) = 0 /\
+            In (off / pool_gran c (b_pool b), len / pool_gran c (b_pool b)) (b_live b) /\
+            (nextid st' <> nextid st ->
+             forall b0, In b0 (blocks st) -> b_pool b0 = b_pool b -> no_room b0 (len / pool_gran c (b_pool b))).
+Proof. exact alloc_result_any_size. Qed.
+Print Assumptions C09_alloc_result_any_size.
+
+Example C09_alloc_result_any_size_hyps_sat : (c_gran cfg_f | JitModel.two64) /\ rounded cfg_f (JitModel.two64 + 100) = 128.
+Proof. split; [exists 288230376151711744; reflexivity|vm_compute; reflexivity]. Qed.
+
+(* ---------------------------------------------------------------- soft reset, exactly (completeness direction of C09_reset_clears):
+   without kImmediateRelease the blocks after reset(kSoft) are precisely the wiped first blocks of the pools — no other
+   block survives, none is invented, and each keeps its identity, pool and mapping (wipe_block changes bit vectors and caches only) *)
+Theorem C09_reset_exact : forall c st, cfg_ok c -> reach c st -> c_imm c = false ->
+  forall b', In b' (blocks (reset c st false)) <->
+             exists q b, 0 <= q < c_pools c /\ first_of_pool q (blocks st) = Some b /\ b' = wipe_block b.
+Proof. exact reset_exact. Qed.
+Print Assumptions C09_reset_exact.
+
+Example C09_reset_exact_instance :
+  let st := run cfg_f (init_state cfg_f) [OAlloc 100; OAlloc 200000; OAlloc 64] in
+  map b_id (blocks st) = [0; 1] /\ map b_id (blocks (reset cfg_f st false)) = [0] /\
+  map b_live (blocks (reset cfg_f st false)) = [[]].
+Proof. vm_compute. repeat split. Qed.
+
+(* ---------------------------------------------------------------- the property in BYTES: in every reachable state the live spans,
+   as byte ranges (block, offset, length) = granule span x granularity of the block's pool, are non-empty and any two are the
+   same span or disjoint (different block, or one ends before the other starts) *)
+Theorem C09_live_bytes_disjoint : forall c st, cfg_ok_bytes c -> reach c st ->
+  forall x y, In x (live_bytes c (blocks st)) -> In y (live_bytes c (blocks st)) ->
+  1 <= t_len x /\ (x = y \/ disjoint_spans x y).
+Proof. exact live_bytes_disjoint. Qed.
+Print Assumptions C09_live_bytes_disjoint.
+
+(* the proven judge never rejects the model: every successful alloc of the model passes alloc_ok (size bounds, pool range,
+   alignment to the pool granularity, behind the padding, inside the block's bytes, no overlap with ANY byte range live
+   before it) — the completeness direction of C09_judge_alloc, so judge and model cannot disagree on an alloc *)
+Theorem C09_model_alloc_accepted : forall c st size st' id off len,
+  cfg_ok_bytes c -> reach c st -> 1 <= size -> size + c_gran c <= JitModel.two64 ->
+  alloc c st size = (st', RAlloc Ok id off len) ->
+  exists b, In b (blocks st') /\ b_id b = id /\
+    alloc_ok (c_gran c) (c_pools c) (b_pad b) (live_bytes c (blocks st)) size id off len (b_bytes b) (b_pool b) = true.
+Proof. exact model_alloc_accepted. Qed.
+Print Assumptions C09_model_alloc_accepted.
+
+Example C09_live_bytes_instance :
+  live_bytes cfg_f3 (blocks (run cfg_f3 (init_state cfg_f3) [OAlloc 100; OAlloc 65536; OAlloc 64])) =
+  [(0, (128, 128)); (1, (256, 65536)); (2, (64, 64))].
+Proof. vm_compute. reflexivity. Qed.
+
+(* ... and its bookkeeping for release and shrink is the model's: a release of a live span's start address is found by the
+   judge and leaves exactly the model's live byte ranges; a shrinking shrink is found with the old length, the new length
+   passes the judge's bounds, and the resulting live byte ranges are the model's *)
+Theorem C09_model_release_accepted : forall c st id off b s n,
+  cfg_ok_bytes c -> reach c st -> find_block id (blocks st) = Some b ->
+  off = s * pool_gran c (b_pool b) -> In (s, n) (b_live b) ->
+  existsb (at_start id off) (live_bytes c (blocks st)) = true /\
+  forall x, In x (live_bytes c (blocks (fst (release c st id off)))) <->
+            In x (filter (fun y => negb (at_start id off y)) (live_bytes c (blocks st))).
+Proof. exact model_release_accepted. Qed.
+Print Assumptions C09_model_release_accepted.
+
+Theorem C09_model_shrink_accepted : forall c st id off ns b s n,
+  cfg_ok_bytes c -> reach c st -> find_block id (blocks st) = Some b ->
+  off = s * pool_gran c (b_pool b) -> In (s, n) (b_live b) -> 1 <= ns ->
+  let g := pool_gran c (b_pool b) in
+  let m := (ns + g - 1) / g in
+  m < n ->
+  (exists y, find (at_start id off) (live_bytes c (blocks st)) = Some y /\ t_len y = n * g) /\
+  1 <= m * g <= n * g /\
+  snd (shrink c st id off ns) = RShrink Ok id (m * g) /\
+  forall x, In x (live_bytes c (blocks (fst (shrink c st id off ns)))) <->
+            x = (id, (off, m * g)) \/ In x (filter (fun y => negb (at_start id off y)) (live_bytes c (blocks st))).
+Proof. exact model_shrink_accepted. Qed.
+Print Assumptions C09_model_shrink_accepted.
+
+Example C09_model_trace_accepted_instance :
+  let st := run cfg_f3 (init_state cfg_f3) [OAlloc 100; OAlloc 65536; OAlloc 64; OShrink 1 256 1000; ORelease 0 128] in
+  live_bytes cfg_f3 (blocks st) = [(1, (256, 1024)); (2, (64, 64))] /\
+  spec_run 64 3 1 [] [EAlloc 100 0 128 128 65536 1; EAlloc 65536 1 256 65536 131072 2; EAlloc 64 2 64 64 65536 0;
+                      EShrink 1 256 1024; ERelease 0 128] 0 = Datatypes.inr [(1, (256, 1024)); (2, (64, 64))].
+Proof. vm_compute. split; reflexivity. Qed.
+
+(* ---------------------------------------------------------------- every block carries the configured padding (0 or 1 granule) *)
+Theorem C09_block_padding : forall c st, cfg_ok c -> reach c st -> forall b, In b (blocks st) -> b_pad b = cpad c.
+Proof. exact reach_pad. Qed.
+Print Assumptions C09_block_padding.
+
+(* alloc in bytes: the live byte ranges after a successful alloc are exactly the old ones plus the returned (block, offset, length) *)
+Theorem C09_alloc_bytes_frame : forall c st size st' id off len,
+  cfg_ok_bytes c -> reach c st -> 1 <= size -> size + c_gran c <= JitModel.two64 ->
+  alloc c st size = (st', RAlloc Ok id off len) ->
+  forall x, In x (live_bytes c (blocks st')) <-> x = (id, (off, len)) \/ In x (live_bytes c (blocks st)).
+Proof. exact model_alloc_bytes_frame. Qed.
+Print Assumptions C09_alloc_bytes_frame.
+
+(* the model REFINES the proven judge, over whole histories of any length: for every history whose release/shrink pointers are
+   exactly what alloc returned (exact_run: what the correspondence harness issues), the trace of the model's own answers
+   (trace: EAlloc with block bytes and pool, ERelease, EShrink with the answered length, EReset) is accepted by spec_run to
+   the end, and the judge's final live set has exactly the members of the model's live byte ranges.  With C09_judge_sound
+   this is the byte-level statement of the property for the model derived a second, independent way; for the check it means
+   a judge rejection on a history on which implementation and model agree is impossible (fewer unexplained reports). *)
+Theorem C09_model_trace_accepted : forall c ops, cfg_ok_bytes c -> exact_run c (init_state c) ops ->
+  exists live', spec_run (c_gran c) (c_pools c) (cpad c) [] (trace c (init_state c) ops) 0 = Datatypes.inr live' /\
+                sim c (run c (init_state c) ops) live'.
+Proof. exact model_history_accepted. Qed.
+Print Assumptions C09_model_trace_accepted.
+
+Example C09_model_trace_accepted_hyps_sat :
+  let ops := [OAlloc 100; OAlloc 65536; OAlloc 64; OShrink 1 256 1000; ORelease 0 128; OAlloc 2147483648; OReset false; OAlloc 64] in
+  exact_run cfg_f3 (init_state cfg_f3) ops /\
+  trace cfg_f3 (init_state cfg_f3) ops =
+    [EAlloc 100 0 128 128 131072 1; EAlloc 65536 1 256 65536 131072 2; EAlloc 64 2 64 64 131072 0;
+     EShrink 1 256 1024; ERelease 0 128; EReset; EAlloc 64 2 64 64 131072 0].
+Proof.
+  split; [|vm_compute; reflexivity].
+  cbn [exact_run]. repeat split; try (vm_compute; congruence).
+  - eexists _, 1, 256. split; [vm_compute; reflexivity|]. split; [vm_compute; reflexivity|]. vm_compute. auto.
+  - eexists _, 1, 1. split; [vm_compute; reflexivity|]. split; [vm_compute; reflexivity|]. vm_compute. auto.
+Qed.
